@@ -48,7 +48,7 @@ def plain_batch(ctx: Ctx, batch: list[tuple[int, bytes]], label: str) -> None:
     res = ctx.res
     h, c, t, d = wire.make_plain()
     d.start()
-    h.write_packets(list(batch), False)
+    h.write_packets(list(batch), res.evaluations % 2 == 1)   # every other batch with the library's debug flag on
     res.evaluations += 1
     res.count(f"plain/{label}")
     case = {"framing": "plaintext", "batch": [(ty, len(p)) for ty, p in batch]}
@@ -80,7 +80,7 @@ class NoiseSession:
 
 def noise_batch(ctx: Ctx, s: NoiseSession, batch: list[tuple[int, bytes]], label: str) -> bool:
     res = ctx.res
-    s.h.write_packets(list(batch), False)
+    s.h.write_packets(list(batch), res.evaluations % 2 == 1)   # every other batch with the library's debug flag on
     res.evaluations += 1
     res.count(f"noise/{label}")
     new = s.t.writes[s.nwrites:]
